@@ -607,6 +607,18 @@ FSTRING_PROGRAMS = (
 )
 
 
+# G-doc: multi-line strings in docstring positions (module / class / def first statement), in first-statement positions which are NOT docstring
+# positions (if / for / with / try / handler / case bodies), as later statements and as values - at several indentation depths, so that the
+# `docstr` option (True / False / 'strict') decides differently for each of them whenever a piece is dedented or indented
+DOCSTR_PROGRAMS = (
+    '"""module\n  doc"""\nclass C:\n    """class\n      doc"""\n    def m(self):\n        """def\n           doc"""\n        if x:\n            """if\n               first"""\n            y = 1\n        return y',
+    'class C:\n    def m(self):\n        for a in b:\n            \'\'\'for\n            first\'\'\'\n        while c:\n            x\n            """while\n            second"""\n        v = """value\n            text"""',
+    'def f():\n    with a as b:\n        """with\n        first"""\n    try:\n        """try\n        first"""\n    except E:\n        """handler\n        first"""\n    else:\n        """else\n        first"""\n    finally:\n        """finally\n        first"""',
+    'def f():\n    match a:\n        case 1:\n            """case\n            first"""\n        case _:\n            x\n    async def g():\n        """nested def\n        doc"""\n        "one line"\n        """later\n        stmt"""',
+    'if a:\n    class D:\n        x = 1\n        """not first\n        in class"""\n    def h():\n        "a" \\\n        "b"\n        if b:\n            "x\\\n            y"\n            f(\'\'\'arg\n            text\'\'\')',
+)
+
+
 @functools.lru_cache(maxsize=None)
 def saturated_programs() -> tuple[str, ...]:
     """G-sat: small programs enumerating the optional parts of every compound construct (decorators x type parameters x bases /
